@@ -384,13 +384,22 @@ impl FixtureDatabase {
                 MAX_FILE_CACHE_SIZE
             );
 
-            // Remove ~25% of entries to avoid frequent re-eviction
+            // Remove ~25% of entries to avoid frequent re-eviction. Only text that can be read
+            // back from disk is dropped: an editor buffer with unsaved changes is the only copy
+            // of that content, and every position-based answer in that document depends on it.
             let to_remove_count = self.file_cache.len() / 4;
-            let to_remove: Vec<PathBuf> = self
+            let candidates: Vec<(PathBuf, Arc<String>)> = self
                 .file_cache
                 .iter()
+                .map(|entry| (entry.key().clone(), Arc::clone(entry.value())))
+                .collect();
+            let to_remove: Vec<PathBuf> = candidates
+                .into_iter()
+                .filter(|(path, cached)| {
+                    std::fs::read_to_string(path).is_ok_and(|on_disk| on_disk == **cached)
+                })
                 .take(to_remove_count)
-                .map(|entry| entry.key().clone())
+                .map(|(path, _)| path)
                 .collect();
 
             for path in to_remove {
